@@ -187,17 +187,6 @@ fn bevel(
     dest.close();
 }
 
-/* given a normal rotate the vector 90 degrees to the right clockwise
- * This function has a period of 4. e.g. swap(swap(swap(swap(x) == x */
-fn swap(a: Vector) -> Vector {
-    /* one of these needs to be negative. We choose a.x so that we rotate to the right instead of negating */
-    Vector::new(a.y, -a.x)
-}
-
-fn unperp(a: Vector) -> Vector {
-    swap(a)
-}
-
 /* rotate a vector 90 degrees to the left */
 fn perp(v: Vector) -> Vector {
     Vector::new(-v.y, v.x)
@@ -205,25 +194,6 @@ fn perp(v: Vector) -> Vector {
 
 fn dot(a: Vector, b: Vector) -> f32 {
     a.x * b.x + a.y * b.y
-}
-
-/* Finds the intersection of two lines each defined by a point and a normal.
-From "Example 2: Find the intersection of two lines" of
-"The Pleasures of "Perp Dot" Products"
-F. S. Hill, Jr. */
-fn line_intersection(a: Point, a_perp: Vector, b: Point, b_perp: Vector) -> Option<Point> {
-    let a_parallel = unperp(a_perp);
-    let c = b - a;
-    let denom = dot(b_perp, a_parallel);
-    if denom == 0.0 {
-        return None;
-    }
-
-    let t = dot(b_perp, c) / denom;
-
-    let intersection = Point::new(a.x + t * (a_parallel.x), a.y + t * (a_parallel.y));
-
-    Some(intersection)
 }
 
 fn is_interior_angle(a: Vector, b: Vector) -> bool {
@@ -258,16 +228,16 @@ fn join_line(
         LineJoin::Miter => {
             let in_dot_out = -s1_normal.x * s2_normal.x + -s1_normal.y * s2_normal.y;
             if 2. <= style.miter_limit * style.miter_limit * (1. - in_dot_out) {
-                let start = pt + s1_normal * offset;
-                let end = pt + s2_normal * offset;
-                if let Some(intersection) = line_intersection(start, s1_normal, end, s2_normal) {
-                    // We won't have an intersection if the segments are parallel
-                    dest.move_to(pt.x + s1_normal.x * offset, pt.y + s1_normal.y * offset);
-                    dest.line_to(intersection.x, intersection.y);
-                    dest.line_to(pt.x + s2_normal.x * offset, pt.y + s2_normal.y * offset);
-                    dest.line_to(pt.x, pt.y);
-                    dest.close();
-                }
+                // The tip of the miter lies on the bisector of the two normals at a distance of
+                // offset / cos(angle / 2) from pt, i.e. at pt + (n1 + n2) * offset / (1 + n1.n2).
+                // Intersecting the two offset lines instead is ill-conditioned when the segments
+                // are nearly parallel and can put the tip arbitrarily far away.
+                let tip = pt + (s1_normal + s2_normal) * (offset / (1. - in_dot_out));
+                dest.move_to(pt.x + s1_normal.x * offset, pt.y + s1_normal.y * offset);
+                dest.line_to(tip.x, tip.y);
+                dest.line_to(pt.x + s2_normal.x * offset, pt.y + s2_normal.y * offset);
+                dest.line_to(pt.x, pt.y);
+                dest.close();
             } else {
                 bevel(dest, style, pt, s1_normal, s2_normal);
             }
